@@ -40,7 +40,8 @@ PROVED = ('parse_uri returns dongle id, channel, data rate, MSB-first 5-byte add
           'open_link never lets an exception escape and calls connection_failed exactly once when there is no link; '
           'uri_helper.address_from_env returns the same address as parse_uri for every well-formed URI; scan_selected '
           'probes every well-formed link on the channel and rate parse_uri returns and its reports parse back to the '
-          'probed channel, rate and address.')
+          'probed channel, rate and address; after any history of init_drivers calls an enabled scheme is claimed by '
+          'exactly its driver class and the other schemes are unaffected.')
 NOT_PROVED = ('CfLinkCppDriver; prrt fields; IPv6 literals in brackets; behaviour on non-ASCII URIs or escapes >= %80; what happens after a driver was '
               'selected (connection setup is C02).')
 
@@ -687,7 +688,10 @@ def impl_scan_selected(conn_uri, links, air):
         import cflib.crtp.radiodriver as rd
         rd.RadioManager.open = staticmethod(lambda devid: _open_any(w, devid))
         d = RadioDriver()
-        d.connect(conn_uri, None, None)
+        try:
+            d.connect(conn_uri, None, None)
+        except Exception as e:  # noqa
+            return ['raise-connect', type(e).__name__ + ':' + str(e)[:60]]
         w.radios[-1].air = [list(a[:2]) + [list(a[2])] for a in air]
         try:
             res = d.scan_selected(list(links))
@@ -747,6 +751,9 @@ def _check_scan_selected(c):
     """Property text: the URIs reported are exactly the selected links' (channel, rate) on which a Crazyflie answers
     at the address that was probed, and each parses back to that channel and rate."""
     conn = impl_parse(c['conn'], [])
+    if conn[0] != 'POk':
+        return {'class': 'wellformed_uri_raises', 'case': {'fn': 'parse_uri', 'uri': c['conn'], 'serials': []},
+                'expected': 'POk', 'observed': conn, 'detail': 'the link the driver is connected to is a well-formed radio URI'}
     addr = conn[4]
     want_pairs = []
     import re
@@ -771,6 +778,107 @@ def _check_scan_selected(c):
         return {'class': 'scan_selected_uri_without_probed_address', 'case': c, 'expected': addr,
                 'observed': [got[1], [b[4] for b in back if b[0] == 'POk']],
                 'detail': 'the probes used the address of the connected link, the reported URIs parse back to the default address'}
+    return None
+
+
+
+# ------------------------------------------------------------------------------------------ histories of init_drivers calls
+HISTORIES = [
+    [{'serial': False}], [{'serial': True}],
+    [{'serial': False}, {'serial': True}], [{'serial': True}, {'serial': False}],
+    [{'serial': False}, {'serial': False}], [{'serial': True}, {'serial': True}],
+    [{'serial': False}, {'serial': False}, {'serial': True}], [{'serial': False}, {'serial': True}, {'serial': False}],
+    [{'serial': True}, {'serial': False}, {'serial': False}],
+    [{'serial': False, 'debug': True}, {'serial': True, 'debug': True}],
+    [{'serial': False, 'env': 'python'}, {'serial': True, 'env': 'python'}],
+    [{'serial': False, 'debug': True, 'env': ''}],
+]
+
+
+def _class_history(calls):
+    """CLASSES after the given sequence of real init_drivers calls on the module-level list (emptied once, before
+    the first call — the state of a fresh process)."""
+    import logging
+    import os
+    import warnings
+    import cflib.crtp as crtp
+    old = list(crtp.CLASSES)
+    env0 = os.environ.pop('USE_CFLINK', None)
+    logging.disable(logging.CRITICAL)
+    try:
+        del crtp.CLASSES[:]
+        for c in calls:
+            if c.get('env') is not None:
+                os.environ['USE_CFLINK'] = c['env']
+            else:
+                os.environ.pop('USE_CFLINK', None)
+            with warnings.catch_warnings():
+                warnings.simplefilter('ignore')
+                crtp.init_drivers(enable_debug_driver=bool(c.get('debug')), enable_serial_driver=bool(c.get('serial')))
+        return list(crtp.CLASSES)
+    finally:
+        logging.disable(logging.NOTSET)
+        crtp.CLASSES[:] = old
+        os.environ.pop('USE_CFLINK', None)
+        if env0 is not None:
+            os.environ['USE_CFLINK'] = env0
+
+
+def gen_history_case(rng, i):
+    calls = HISTORIES[i] if i < len(HISTORIES) else \
+        [{'serial': rng.random() < 0.4, 'debug': rng.random() < 0.2} for _ in range(rng.randrange(1, 5))]
+    drv = rng.choice(list(SCHEME_SAMPLES)) if i >= 2 * len(HISTORIES) else \
+        ['DrvSerial', 'DrvRadio', 'DrvUsb', 'DrvTcp', 'DrvUdp', 'DrvPrrt'][(i // len(HISTORIES)) % 6] if i >= len(HISTORIES) else 'DrvSerial'
+    uri = rng.choice(SCHEME_SAMPLES[drv] + (UNKNOWN[:4] if rng.random() < 0.1 else []))
+    return {'fn': 'init_history', 'calls': calls, 'uri': uri}
+
+
+def _history_observe(c):
+    names = {v: k for k, v in _driver_classes().items()}
+    world = _World(serial_devs=('ttyUSB0', 'ttyACM1'))
+    lst = _class_history(c['calls'])
+    each = impl_connect_each(c['uri'], world)
+    present = []
+    for cl in lst:
+        n = names.get(cl, cl.__name__)
+        if n not in present:
+            present.append(n)
+    claim = [d for d in present if each.get(d, 'CWrong') != 'CWrong']
+    return {'classes': [names.get(cl, cl.__name__) for cl in lst], 'each': each, 'claimants': claim,
+            'gld': impl_get_link_driver(c['uri'], world, lst), 'open': impl_open_link(c['uri'], world, lst), 'world': world}
+
+
+def _history_term(c, env):
+    calls = '[' + '; '.join(coqrun.coq_bool(bool(x.get('serial'))) for x in c['calls']) + ']'
+    st = _serials_term(['E7E7E7E7E7'])
+    return '(in_scope (%s), init_history %s, claimants (init_history %s) (%s), get_link_driver %s %s (init_history %s) (%s), open_link %s %s (init_history %s) (%s))' % (
+        _cs(c['uri']), calls, calls, _cs(c['uri']), st, _env_term(env), calls, _cs(c['uri']), st, _env_term(env), calls, _cs(c['uri']))
+
+
+def _check_history(c, ob=None):
+    """Property text over driver lists built by any sequence of init_drivers calls: each scheme whose driver was
+    enabled is claimed by exactly that one driver class, the optional one by none when it was never enabled."""
+    ob = ob or _history_observe(c)
+    exp = None
+    for d, us in SCHEME_SAMPLES.items():
+        if c['uri'] in us:
+            exp = d
+    enabled = exp is not None and (exp != 'DrvSerial' or any(x.get('serial') for x in c['calls']))
+    case = {k: c[k] for k in ('fn', 'calls', 'uri')}
+    if enabled and not ob['claimants']:
+        return {'class': 'enabled_scheme_has_no_driver', 'case': case, 'expected': [exp], 'observed': {'claimants': [], 'CLASSES': ob['classes']},
+                'detail': 'a scheme whose driver was enabled by an init_drivers call must be claimed by that driver'}
+    if len(ob['claimants']) > 1 or (enabled and ob['claimants'] != [exp]) or (not enabled and ob['claimants']):
+        return {'class': 'scheme_claimed_by_wrong_or_two_classes', 'case': case, 'expected': [exp] if enabled else [],
+                'observed': {'claimants': ob['claimants'], 'CLASSES': ob['classes']}}
+    ok = enabled and ob['each'][exp] == 'COk'
+    want_g = ['GDriver', exp] if ok else (['GNone'] if not enabled else None)
+    if want_g is not None and ob['gld'] != want_g:
+        return {'class': 'history_wrong_driver', 'case': case, 'expected': want_g, 'observed': ob['gld']}
+    want_o = ['OLinked', exp, ['CbRequested']] if ok else ['ONoLink', ['CbRequested', 'CbFailed']]
+    if ob['open'] != want_o:
+        return {'class': 'open_link_exception_escapes' if ob['open'][0] == 'OEscapes' else 'history_open_link_wrong', 'case': case,
+                'expected': want_o, 'observed': ob['open']}
     return None
 
 
@@ -1010,7 +1118,7 @@ def tie(ctx):
         got = impl_scan_selected(c['conn'], c['links'], c['air'])
         mm, ms = _norm(mv[1]), _norm(mv[2])
         want = ['raise'] if mm is None else ['ok', list(mm), [list(x) for x in ms]]
-        g = ['raise'] if got[0] != 'ok' else ['ok', got[1], [p[:2] for p in got[2]]]
+        g = [got[0]] if got[0] != 'ok' else ['ok', got[1], [p[:2] for p in got[2]]]
         dist['scan_selected'] += 1
         k = dist['scan_selected_kinds']
         k['raises' if g[0] == 'raise' else 'reports'] += 1 if g[0] == 'raise' else len(g[1])
@@ -1021,8 +1129,29 @@ def tie(ctx):
                 dis.append({'what': 'scan_selected: probes / reported URIs differ', 'case': c, 'model': want, 'impl': g})
         elif g[0] == 'ok' and g[1]:
             nontriv += 1
+    # ---- 7. histories of init_drivers calls on the module-level list
+    hcases = [c for c in _corpus_cases() if c.get('fn') == 'init_history'] + [gen_history_case(rng, i) for i in range(ctx.scale(120, 1500))]
+    hobs = [_history_observe(c) for c in hcases]
+    hmodel = coqrun.eval_terms(HEADER, [_history_term(c, {d: o['each'][d] == 'COk' for d in DRIVERS}) for c, o in zip(hcases, hobs)],
+                               tag='c20h', shard=60)
+    dist['init_history'] = 0
+    dist['init_history_lengths'] = {}
+    for c, o, mv in zip(hcases, hobs, hmodel):
+        if not mv[0]:
+            continue
+        dist['init_history'] += 1
+        dist['init_history_lengths'][len(c['calls'])] = dist['init_history_lengths'].get(len(c['calls']), 0) + 1
+        mg, mo = _norm(mv[3]), _norm(mv[4])
+        want = [list(mv[1]), list(mv[2]), mg if isinstance(mg, list) else [mg], mo if isinstance(mo, list) else [mo]]
+        got = [o['classes'], o['claimants'], o['gld'], o['open']]
+        if want != got:
+            if len(dis) < 40:
+                dis.append({'what': 'init_drivers history: CLASSES / claimants / get_link_driver / open_link differ',
+                            'case': {k: c[k] for k in ('fn', 'calls', 'uri')}, 'model': want, 'impl': got})
+        elif len(c['calls']) >= 2:
+            nontriv += 1
     return {
-        'evaluations': sum(dist[k] for k in ('scan_selected', 'driver_fields', 'parse_wellformed', 'parse_mutated', 'parse_other_scheme', 'env_address', 'connect_calls', 'scan', 'dispatch')),
+        'evaluations': sum(dist[k] for k in ('init_history', 'scan_selected', 'driver_fields', 'parse_wellformed', 'parse_mutated', 'parse_other_scheme', 'env_address', 'connect_calls', 'scan', 'dispatch')),
         'distinct_nontrivial': nontriv,
         'rule': 'parse_uri on well-formed URIs (every channel 0..125, 3 rates, 1..10 hex digits in random case, numeric and '
                 'serial-number dongles with random serial lists, omitted suffixes, query options), 1-2 random edits of '
@@ -1219,6 +1348,21 @@ def oracle(ctx, deep=False):
         if f:
             f.setdefault('case', c)
             add(f)
+    # every channel 0..125 x every rate x address forms (none, full, short, lower case), built from the values
+    for ch in range(126):
+        for r in range(3):
+            for a in (None, 'E7E7E7E7E7', '1', 'e7e7e7e701'):
+                uri = 'radio://0/%d/%s' % (ch, RATES[r]) + ('' if a is None else '/' + a)
+                n += 1
+                f = _check_wellformed(uri, [], {'devid': 0, 'channel': ch, 'rate': r, 'address': 0xE7E7E7E7E7 if a is None else int(a, 16),
+                                                'limit': None, 'form': 'rate' if a is None else 'addr'})
+                if f:
+                    f['class'] = 'channel_in_0_125_not_parsed' if f['observed'][0] != 'POk' else f['class']
+                    add(f)
+    for ch in (0, 1, 124, 125):
+        for addr in (None, 0xE7E7E7E701):
+            n += 1
+            add(_check_scan(addr, {0: [ch], 1: [ch], 2: [ch]}))
     # well-formed URIs: every channel x every omitted-suffix form, then random
     for i in range(ctx.scale(1500, 20000) * (3 if deep else 1)):
         serials = gen_serials(rng)
@@ -1233,6 +1377,9 @@ def oracle(ctx, deep=False):
             found = {r: [3 * i + r] for r in range(3)}
         n += 1
         add(_check_scan(addr, found))
+    for i in range(ctx.scale(150, 2000)):
+        n += 1
+        add(_check_history(gen_history_case(rng, i)))
     for c in [c for c in _corpus_cases() if c.get('fn') == 'scan_selected'] + \
             [gen_scan_selected(rng) for _ in range(ctx.scale(300, 4000) * (3 if deep else 1))]:
         n += 1
@@ -1286,6 +1433,8 @@ def replay(payload, ctx):
         if 'expect' in c:
             return _check_wellformed(c['uri'], c.get('serials', []), c['expect'])
         return None
+    if fn == 'init_history':
+        return _check_history(c)
     if fn == 'scan_selected':
         return _check_scan_selected(c)
     if fn == 'malformed':
